@@ -247,6 +247,20 @@ theorem record_idempotent_in_generation (c : Cfg) (t : Table) (now : Int) (h : U
   unfold record
   simp [hg, hs, hact]
 
+/-- **Concurrent renewers advance the streak once.** Two recorders that both
+loaded the same expired state race on `CompareAndSwap`: one wins and installs
+its result; the loser's next loop iteration is `record` on the winner's
+table, and — its clock still before the new `retryAfter` — returns the
+winner's state unchanged. (The atomicity of the compare-and-swap itself is
+trusted; the `race` op drives real goroutines through it.) -/
+theorem streak_advances_once (c : Cfg) (t : Table) (now₁ now₂ : Int) (h : UInt64) (cand₁ cand₂ : Entry)
+    (hsame : cand₂.kind = cand₁.kind ∧ cand₂.q = cand₁.q ∧ cand₂.z = cand₁.z)
+    (hclock : now₂ < (record c t now₁ h cand₁).2.retryAfter) :
+    (record c (record c t now₁ h cand₁).1 now₂ h cand₂).2 = (record c t now₁ h cand₁).2 ∧
+    (record c (record c t now₁ h cand₁).1 now₂ h cand₂).1 = (record c t now₁ h cand₁).1 := by
+  rw [record_idempotent_in_generation c t now₁ h cand₁ now₂ cand₂ hsame hclock]
+  exact ⟨rfl, rfl⟩
+
 /-- the same at the API level: `RecordQuestion` of a key that normalises to
 the same key (other spelling, other provenance, other witness). -/
 theorem recordQuestion_idempotent (H : Hash) (c : Cfg) (t : Table) (now now' : Int) (k k' : QKey)
